@@ -388,7 +388,7 @@ Section InterpProofs.
     set (N := h_count h) in *. set (bs := h_buckets h) in *.
     assert (HqN0 : 0 <= q * N) by nra.
     assert (HqN1 : q * N <= N) by nra.
-    unfold hquantile.
+    unfold hquantile, hquantile_gen.
     replace (Qlt_bool q 0) with false by (symmetry; apply Qlt_bool_false; lra).
     replace (Qlt_bool 1 q) with false by (symmetry; apply Qlt_bool_false; lra).
     replace (Qeq_bool (h_count h) 0) with false by (symmetry; apply Qeq_bool_false; fold N; lra).
@@ -1256,7 +1256,7 @@ Section FractionProofs.
     eexists; split; [reflexivity|].
     apply ext_leb_false, ext_lt_le in E. assert (Hm := cdf_mono lo up E).
     destruct (cdf_range lo), (cdf_range up).
-    destruct (div_range (cdf up - cdf lo) (h_count h)) as (A & B & _); try lra. auto.
+    destruct (div_range (cdf up - cdf lo) (h_count h)) as (A & B & _); try lra.
   Qed.
 
   (* it does not decrease when the interval grows *)
